@@ -7,6 +7,11 @@ import (
 
 const huge = int64(1) << 62
 
+const (
+	minInt64 = -1 << 63
+	maxInt64 = 1<<63 - 1
+)
+
 // policies ---------------------------------------------------------------
 
 var policyNames = []string{"uniform", "showdown", "aggressive", "foldy", "minraise", "shortallin"}
@@ -110,6 +115,11 @@ func (c *RapidChooser) Decide(h *Hand, gs *pf.GameState) Op {
 		bag = aa
 	}
 	a := bag[rapid.IntRange(0, len(bag)-1).Draw(rt, "action")]
+	if c.Pr.TryRaises && c.refused == 0 && !hasStr(aa, "raise") && !hasStr(aa, "pass") && gs.Status.CurrentWager > 0 && rapid.IntRange(0, 3).Draw(rt, "tryRaise") == 0 {
+		// C12 speaks of raise requests, not of offers: ask for a raise although the
+		// engine did not offer one (the monitor knows whether it had to be carried out)
+		a = "raise"
+	}
 	op := Op{K: "act", Seat: cp, A: a}
 	cw, prs := gs.Status.CurrentWager, gs.Status.PreviousRaiseSize
 	mb := gs.Status.MiniBet
@@ -124,7 +134,7 @@ func (c *RapidChooser) Decide(h *Hand, gs *pf.GameState) Op {
 			cands = []int64{mb, mb + 1, 2 * mb, mb + 2, 3 * mb}
 		}
 		if c.Pr.Hostile && rapid.IntRange(0, 5).Draw(rt, "hostile") == 0 {
-			cands = []int64{0, -1, -p.StackSize, -huge, huge, -mb, p.StackSize + 1}
+			cands = []int64{0, -1, -p.StackSize, -huge, huge, -mb, p.StackSize + 1, minInt64, minInt64 + 1, maxInt64, maxInt64 - 1, minInt64 + p.StackSize}
 		}
 		op.X = cands[rapid.IntRange(0, len(cands)-1).Draw(rt, "betAmount")]
 		if !c.Pr.Hostile && op.X <= 0 {
@@ -143,7 +153,7 @@ func (c *RapidChooser) Decide(h *Hand, gs *pf.GameState) Op {
 			cands = []int64{cw + prs, cw + prs + 1, cw + 2*prs, cw + prs + 2, cw + prs, 2 * cw, 2*cw + 1}
 		}
 		if c.Pr.Hostile && rapid.IntRange(0, 5).Draw(rt, "hostile") == 0 {
-			cands = []int64{0, -1, cw - 1, cw, -huge, huge, -s0, cw / 2, cw + prs - 1, cw + 1}
+			cands = []int64{0, -1, cw - 1, cw, -huge, huge, -s0, cw / 2, cw + prs - 1, cw + 1, minInt64, minInt64 + 1, minInt64 + cw, minInt64 + cw - 1, maxInt64, maxInt64 - 1}
 		}
 		op.X = cands[rapid.IntRange(0, len(cands)-1).Draw(rt, "raiseAmount")]
 		if !c.Pr.Hostile && op.X <= cw {
